@@ -445,6 +445,11 @@ def legacy_twins(rep, F, rule, spaces):
                 rep.bad(rule, "twin:%s:unanalysable" % key, str(e), where=fn.loc())
                 continue
             rets = [p for p in ps if p.kind == "ret"]
+            if len(rets) > 1 and len(rets) == len(ps) and all(p.ret[0] == "call" and p.ret[1].rsplit("::", 1)[-1] == it["name"] for p in rets) \
+                    and all(len(p.pc) == 1 and p.pc[0][0][0] == "discr" for p in rets):
+                n += 1
+                rep.ok(rule, "twin:%s[variant delegation, %d arms]" % (key, len(rets)))
+                continue
             if len(ps) != 1 or len(rets) != 1 or rets[0].pc:
                 rep.bad(rule, "twin:%s" % key, "%s is not a single unconditional call (%d paths)" % (key, len(ps)), where=fn.loc())
                 continue
